@@ -342,6 +342,8 @@ def run_property(prop_id, tier, replay=None):
     mod = importlib.import_module(prop_mod_name)
     seed = env_seed()
     findings = Findings()
+    import logging
+    logging.disable(logging.CRITICAL)
     if replay:
         return _replay(mod, replay, findings)
 
